@@ -65,6 +65,8 @@ plan_to_json(const Plan &p)
                         w.num("a", o.a);
                 if (o.b)
                         w.num("b", o.b);
+                if (o.pre)
+                        w.num("pre", o.pre);
                 if (!o.jobs.empty()) {
                         w.arr("jobs");
                         for (auto &j : o.jobs)
@@ -127,6 +129,7 @@ plan_from_json(const std::string &txt, Plan &p, std::string *err)
                 op.nocheck = (uint8_t) o->geti("nocheck");
                 op.a = (int32_t) o->geti("a");
                 op.b = (int32_t) o->geti("b");
+                op.pre = (uint32_t) o->geti("pre");
                 if (JP js = o->get("jobs"))
                         for (auto &j : js->a)
                                 op.jobs.push_back(spec_from_json(*j));
@@ -220,6 +223,7 @@ struct Task {
 };
 
 struct StreamState;
+const MatJob *stream_mat(const StreamState *st); // ops_ext.inc
 struct Ctx {
         std::vector<StreamState *> streams;
         bool use_copies = false;  // managers are created through library copy A (C16 other-image mode)
@@ -424,7 +428,38 @@ attribute_fault(Ctx &c, const std::vector<const MatJob *> &extra)
         int best_obj = -1;
         long best_d = 1 << 30;
         bool after = false;
+        const char *seg_kind = nullptr;
+        size_t seg_idx = 0;
+        uint32_t seg_len = 0;
         auto scan = [&](const MatJob *mj) {
+                // segments held in their own objects
+                for (int pass = 0; pass < 2; pass++) {
+                        const std::vector<arena::Obj> &v = pass ? mj->segs.out : mj->segs.in;
+                        for (size_t i = 0; i < v.size(); i++) {
+                                if (!v[i].valid())
+                                        continue;
+                                uintptr_t lo = (uintptr_t) v[i].p, hi = lo + v[i].len;
+                                long d;
+                                bool aft;
+                                if (a >= hi) {
+                                        d = (long) (a - hi);
+                                        aft = true;
+                                } else if (a < lo) {
+                                        d = (long) (lo - a);
+                                        aft = false;
+                                } else
+                                        continue;
+                                if (d < best_d) {
+                                        best_d = d;
+                                        best = mj;
+                                        best_obj = pass ? O_DST : O_SRC;
+                                        after = aft;
+                                        seg_kind = pass ? "destination segment" : "source segment";
+                                        seg_idx = i;
+                                        seg_len = v[i].len;
+                                }
+                        }
+                }
                 for (int i = 0; i < O_NOBJ; i++) {
                         const arena::Obj &o = mj->obj[i];
                         if (!o.valid())
@@ -445,6 +480,7 @@ attribute_fault(Ctx &c, const std::vector<const MatJob *> &extra)
                                 best = mj;
                                 best_obj = i;
                                 after = aft;
+                                seg_kind = nullptr;
                         }
                 }
         };
@@ -453,6 +489,9 @@ attribute_fault(Ctx &c, const std::vector<const MatJob *> &extra)
                         scan(&f->mj);
         for (auto *m : extra)
                 scan(m);
+        for (auto *st : c.streams)
+                if (st)
+                        scan(stream_mat(st));
         char b[512];
         if (!best || best_d > 4096 + 64) {
                 snprintf(b, sizeof b, "%s of guard page at arena+0x%llx (rip %p), no caller object nearby",
@@ -460,9 +499,14 @@ attribute_fault(Ctx &c, const std::vector<const MatJob *> &extra)
                 return b;
         }
         const JobSpec &s = best->spec;
-        snprintf(b, sizeof b, "%s %ld byte(s) %s object '%s' (len %u) at rip %p of job %s", g_fault.write ? "write" : "read",
-                 after ? best_d + 1 : best_d, after ? "past the end of" : "before the start of", obj_names[best_obj],
-                 best->obj[best_obj].len, g_fault.rip, spec_str(s).c_str());
+        if (seg_kind)
+                snprintf(b, sizeof b, "%s %ld byte(s) %s %s %zu (len %u) during %s at rip %p of %s", g_fault.write ? "write" : "read",
+                         after ? best_d + 1 : best_d, after ? "past the end of" : "before the start of", seg_kind, seg_idx, seg_len,
+                         g_callctx.name, g_fault.rip, spec_str(s).c_str());
+        else
+                snprintf(b, sizeof b, "%s %ld byte(s) %s object '%s' (len %u) at rip %p of job %s", g_fault.write ? "write" : "read",
+                         after ? best_d + 1 : best_d, after ? "past the end of" : "before the start of", obj_names[best_obj],
+                         best->obj[best_obj].len, g_fault.rip, spec_str(s).c_str());
         c.cur_spec = &best->spec;
         // structured key for known findings
         std::string key = std::string("alg=") + cipher_name(s.cipher) + "-" + std::to_string(s.key_len * 8) + "/" +
@@ -1274,12 +1318,70 @@ sgl_stream_done(Ctx &c, Task &t, int stream)
         sgl_final_check(c, t, *c.streams[(size_t) stream]);
 }
 
+void
+exec_op(Ctx &c, size_t k)
+{
+        const Plan &p = *c.plan;
+        const Op &op = p.ops[k];
+        c.op_index = (int) k;
+        Task &t = c.tasks[op.task];
+        c.cur_task = &t;
+        ctr(c, CT_OPS);
+        record_state(c, t, op);
+        switch (op.kind) {
+        case OP_SUBMIT: op_submit(c, t, op); break;
+        case OP_GET_COMPLETED: op_get_completed(c, t); break;
+        case OP_FLUSH: op_flush(c, t); break;
+        case OP_FLUSH_ALL: op_flush_all(c, t); break;
+        case OP_QUEUE_SIZE: op_queue_size(c, t); break;
+        case OP_GET_NEXT: op_get_next(c, t, op); break;
+        case OP_BURST: op_burst(c, t, op); break;
+        case OP_FLUSH_BURST: op_flush_burst(c, t, (uint32_t) op.a); break;
+        case OP_REINIT: op_reinit(c, t, op.a); break;
+        case OP_REATTACH: op_reattach(c, t, op.a); break;
+        case OP_MISUSE: op_misuse(c, t, op.a); break;
+        case OP_MARK: c.after_mark = true; break;
+        case OP_SYNC_BURST: op_sync_burst(c, t, op); break;
+        case OP_DIRECT: op_direct(c, t, op); break;
+        case OP_SGL_SEG: op_sgl_seg(c, t, op); break;
+        case OP_KEYPREP: op_keyprep(c, t, op); break;
+        default: ctr(c, CT_DEGRADED_OPS); break;
+        }
+        if ((p.oracles & OR_SCRUB) && t.fifo.empty() && op.kind != OP_KEYPREP && op.kind != OP_QUEUE_SIZE && op.kind != OP_GET_NEXT &&
+            op.kind != OP_MISUSE && op.kind != OP_MARK)
+                residue_scan(c, t, g_callctx.name, true);
+}
+
+struct NestArg {
+        Ctx *c;
+        size_t k;
+};
+
+// runs in the single-step handler: another task's op while the current task's call is suspended
+void
+nested_op(void *arg)
+{
+        NestArg *na = (NestArg *) arg;
+        Ctx &c = *na->c;
+        const int op_index = c.op_index;
+        Task *cur_task = c.cur_task;
+        const JobSpec *cur_spec = c.cur_spec;
+        const InFlight *cur_inf = c.cur_inf;
+        exec_op(c, na->k);
+        c.op_index = op_index;
+        c.cur_task = cur_task;
+        c.cur_spec = cur_spec;
+        c.cur_inf = cur_inf;
+}
+
 } // namespace
 
 RunResult
 run_plan(const Plan &p, const RunOpts &o)
 {
         install_handlers();
+        preempt_install();
+        g_pre.armed = g_pre.stepping = g_pre.fired = 0;
         arena::init();
         arena::reset();
         RunResult res;
@@ -1334,37 +1436,38 @@ run_plan(const Plan &p, const RunOpts &o)
                 }
                 for (size_t k = 0; k < p.ops.size(); k++) {
                         const Op &op = p.ops[k];
-                        c.op_index = (int) k;
                         if (op.task >= c.tasks.size())
                                 continue;
                         if (o.only_task >= 0 && op.task != o.only_task)
                                 continue;
-                        Task &t = c.tasks[op.task];
-                        c.cur_task = &t;
-                        ctr(c, CT_OPS);
-                        record_state(c, t, op);
-                        switch (op.kind) {
-                        case OP_SUBMIT: op_submit(c, t, op); break;
-                        case OP_GET_COMPLETED: op_get_completed(c, t); break;
-                        case OP_FLUSH: op_flush(c, t); break;
-                        case OP_FLUSH_ALL: op_flush_all(c, t); break;
-                        case OP_QUEUE_SIZE: op_queue_size(c, t); break;
-                        case OP_GET_NEXT: op_get_next(c, t, op); break;
-                        case OP_BURST: op_burst(c, t, op); break;
-                        case OP_FLUSH_BURST: op_flush_burst(c, t, (uint32_t) op.a); break;
-                        case OP_REINIT: op_reinit(c, t, op.a); break;
-                        case OP_REATTACH: op_reattach(c, t, op.a); break;
-                        case OP_MISUSE: op_misuse(c, t, op.a); break;
-                        case OP_MARK: c.after_mark = true; break;
-                        case OP_SYNC_BURST: op_sync_burst(c, t, op); break;
-                        case OP_DIRECT: op_direct(c, t, op); break;
-                        case OP_SGL_SEG: op_sgl_seg(c, t, op); break;
-                        case OP_KEYPREP: op_keyprep(c, t, op); break;
-                        default: ctr(c, CT_DEGRADED_OPS); break;
+                        // C17 L2: the next op (another task's) runs inside this op's library call
+                        bool nest = false;
+                        NestArg na;
+                        if (op.pre && o.only_task < 0 && k + 1 < p.ops.size()) {
+                                const Op &nx = p.ops[k + 1];
+                                nest = nx.task != op.task && nx.task < c.tasks.size() && nx.kind != OP_REATTACH && nx.kind != OP_MARK &&
+                                       !(p.oracles & OR_SCRUB);
                         }
-                        if ((p.oracles & OR_SCRUB) && t.fifo.empty() && op.kind != OP_KEYPREP && op.kind != OP_QUEUE_SIZE &&
-                            op.kind != OP_GET_NEXT && op.kind != OP_MISUSE && op.kind != OP_MARK)
-                                residue_scan(c, t, g_callctx.name, true);
+                        if (nest) {
+                                na.c = &c;
+                                na.k = k + 1;
+                                g_pre.armed = 1;
+                                g_pre.fired = 0;
+                                g_pre.stepping = 0;
+                                g_pre.n = op.pre;
+                                g_pre.fn = nested_op;
+                                g_pre.arg = &na;
+                        }
+                        exec_op(c, k);
+                        if (nest) {
+                                g_pre.armed = 0;
+                                if (g_pre.fired) {
+                                        ctr(c, CT_PREEMPT_FIRED);
+                                        k++; // already executed inside the call
+                                } else
+                                        ctr(c, CT_PREEMPT_MISSED);
+                                g_pre.fired = 0;
+                        }
                         if (res.viols.size() >= 8)
                                 break;
                 }
